@@ -39,6 +39,14 @@ func gen(g *hx.Gen) {
 	emit := func(gr *gx.G, nvar int) {
 		g.Emit(gx.CaseLine(gr, levelOf(gr), gx.Variants(r, gr.N, nvar+1, all)[1:]))
 	}
+	// the same graph under a random relabelling as the base graph of a second case: the model
+	// line is computed for the base graph, so this puts random labellings (not only the
+	// construction order of the families) in front of the extracted models
+	emitRelabelled := func(gr *gx.G, nvar int) {
+		if gr.N >= 2 {
+			emit(gr.Relabel(r.Perm(gr.N)), nvar)
+		}
+	}
 	// n <= 3: every labelled graph, every representation under every relabelling
 	for n := 0; n <= 3; n++ {
 		gx.AllLabelled(n, func(gr *gx.G) {
@@ -65,6 +73,9 @@ func gen(g *hx.Gen) {
 		}
 		for _, gr := range gx.IsoClasses(n) {
 			emit(gr, nv)
+			if n <= 7 {
+				emitRelabelled(gr, 3)
+			}
 		}
 	}
 	g.Exhaustive(fmt.Sprintf("one graph per isomorphism class with n <= %d vertices (brute-force canonical forms)", topc))
@@ -76,7 +87,20 @@ func gen(g *hx.Gen) {
 		gx.Union(gx.Path(3), gx.Union(gx.Empty(2), gx.Cycle(3)))}
 	for _, gr := range fixed {
 		emit(gr, 8)
+		emitRelabelled(gr, 4)
+		emitRelabelled(gr, 4)
 	}
+	// even girth under random labellings (Girth finds even cycles through two different branches)
+	for k := 2; k <= g.Pick(5, 6); k++ {
+		for rep := 0; rep < g.Pick(4, 12); rep++ {
+			emitRelabelled(gx.Cycle(2*k), 3)
+			emitRelabelled(gx.Theta(k-1, k-1, k+1), 3)
+			emitRelabelled(gx.Ladder(k+1, false), 3)
+		}
+	}
+	emitRelabelled(gx.Cube(), 4)
+	emitRelabelled(gx.Multipartite([]int{3, 3}), 4)
+	emitRelabelled(gx.Multipartite([]int{2, 5}), 4)
 
 	maxN := g.Pick(10, 11)
 	count := g.Pick(900, 14000)
@@ -102,6 +126,10 @@ func gen(g *hx.Gen) {
 			b := gx.ManyShortCycles(r, maxN-a.N)
 			gr = gx.Union(a, b)
 		}
-		emit(gr, g.Pick(4, 6))
+		if r.Chance(1, 2) {
+			emitRelabelled(gr, g.Pick(4, 6))
+		} else {
+			emit(gr, g.Pick(4, 6))
+		}
 	}
 }
